@@ -441,8 +441,8 @@ struct ViewDriver : DriverBase<ViewDriver> {
         if (op == "layout_stride") {
             using E2 = etl::extents<int, 3, etl::dynamic_extent>;
             using E3 = etl::dextents<size_t, 3>;
-            int const which  = static_cast<int>(st.k[2] % 4);
-            size_t const rnk = (which % 2 == 0) ? 2 : 3;
+            int const which  = static_cast<int>(st.k[2] % 5);
+            size_t const rnk = which == 4 ? 2 : ((which % 2 == 0) ? 2 : 3);
             size_t const r   = bad ? static_cast<size_t>(beyond(rnk, st.flt)) : static_cast<size_t>(st.k[0] % rnk);
             ctx.log.kv("which", which);
             ctx.log.kv("r", static_cast<long long>(r));
@@ -452,11 +452,12 @@ struct ViewDriver : DriverBase<ViewDriver> {
                 case 0: got = etl::layout_left::mapping<E2>(E2(4)).stride(r); break;
                 case 1: got = static_cast<long long>(etl::layout_left::mapping<E3>(E3(2, 3, 4)).stride(r)); break;
                 case 2: got = etl::layout_right::mapping<E2>(E2(4)).stride(r); break;
-                default: got = static_cast<long long>(etl::layout_right::mapping<E3>(E3(2, 3, 4)).stride(r)); break;
+                case 3: got = static_cast<long long>(etl::layout_right::mapping<E3>(E3(2, 3, 4)).stride(r)); break;
+                default: got = etl::layout_stride::mapping<E2>(E2(4), etl::array<int, 2>{5, 1}).stride(r); break;
                 }
             });
             if (ok) {
-                static constexpr long long wantTable[4][3] = {{1, 3, 0}, {1, 2, 6}, {4, 1, 0}, {12, 4, 1}};
+                static constexpr long long wantTable[5][3] = {{1, 3, 0}, {1, 2, 6}, {4, 1, 0}, {12, 4, 1}, {5, 1, 0}};
                 if (got != wantTable[which][r]) {
                     ctx.violation("C19", "diff:layout-stride", "layout mapping stride(r) differs from the closed form"); // foreign
                 }
